@@ -30,6 +30,13 @@ SHAPES = [
     (3, (('AND', (0, 1)), ('XOR', (0, 1)), ('OR', (3, 4)), ('XOR', (3, 2)), ('AND', (5, 2))), (6, 7)),
     (3, (('XOR', (0, 1)), ('AND', (0, 1)), ('OR', (4, 3)), ('AND', (5, 2)), ('XOR', (4, 2))), (6, 7)),
     (2, (('NAND', (0, 1)), ('OR', (0, 1)), ('AND', (2, 3)), ('NOR', (0, 1))), (4, 5, 3)),
+    # correlated cut leaves (some leaf combinations never occur -> don't-care rows matter)
+    (4, (('AND', (0, 1)), ('OR', (0, 2)), ('OR', (4, 3)), ('AND', (6, 5))), (7,)),
+    (3, (('AND', (0, 1)), ('OR', (0, 1)), ('XOR', (3, 4)), ('AND', (5, 2)), ('OR', (6, 3))), (7,)),
+    (3, (('GT', (0, 1)), ('OR', (0, 2)), ('XOR', (3, 4)), ('NOR', (5, 1))), (6, 5)),
+    # trivial cone output (equals a leaf) listed several times among the circuit outputs
+    (2, (('AND', (0, 1)), ('OR', (2, 0))), (3, 3)),
+    (3, (('AND', (0, 1)), ('OR', (3, 0)), ('XOR', (1, 2))), (4, 5, 4)),
 ]
 
 
@@ -90,7 +97,7 @@ def env_menu(n_solver_calls, use_pool, only_set=False):
     """Single deviations from the default environment."""
     if only_set:
         return [{'set': 'desc'}, {'set': 'rot1'}, {'set': 'rot2'}]
-    devs = [{'solver': 'phase'}, {'solver': 'rev'}, {'set': 'desc'}, {'set': 'rot1'}, {'set': 'rot2'},
+    devs = [{'solver': 'phase'}, {'solver': 'mixed'}, {'set': 'desc'}, {'set': 'rot1'}, {'set': 'rot2'},
             {'cuts': 'reverse_cuts'}, {'cuts': 'reverse_leaves'}, {'cuts': 'keep_dominated'}, {'cuts': 'trivial_first'}]
     if use_pool:
         for i in range(n_solver_calls):
@@ -122,8 +129,12 @@ def run_once(n, gates, outs, basis, params, env):
     def chooser(clauses, nvars):
         if solver == 'phase':
             return vsat.solve(clauses, nvars, phase=True)
-        if solver == 'rev':
-            return vsat.solve(clauses, nvars, order=list(range(nvars, 0, -1)))
+        if solver == 'mixed':
+            # another model at DPLL-friendly cost: prefer True for every odd variable (solve the formula with
+            # those variables negated, then translate the model back)
+            flip = lambda l: -l if abs(l) % 2 else l  # noqa: E731
+            m = vsat.solve([[flip(l) for l in c_] for c_ in clauses], nvars)
+            return None if m is None else [flip(l) for l in m]
         return vsat.solve(clauses, nvars)
 
     ps.ENV.chooser = chooser
@@ -232,7 +243,7 @@ def check_circuit(acc, n, gates, outs, basis, params, max_dev, only_env=None, on
 
 def _policies(n, k, gates):
     p = n + k
-    pol = [(p - 1,)]
+    pol = [(p - 1,), (p - 1, p - 1)]
     s = tuple(space.sinks(n, gates))
     if s and s not in pol:
         pol.append(s)
@@ -276,15 +287,15 @@ def plan(tier):
 
 def describe(tier):
     return {
-        'rule': 'circuit of F(n,k,A04) (11 supported gate types; A04S = {NOT,AND,OR,XOR,GT,NOR}) x outputs {last gate, all sinks, all gates} x '
+        'rule': 'circuit of F(n,k,A04) (11 supported gate types; A04S = {NOT,AND,OR,XOR,GT,NOR}) x outputs {last gate, last gate twice, all sinks, all gates} x '
         'basis {AIG, XAIG, FULL, "xaig"} x parameter sets (direct solver call, pool path, validation on, small cut/size limits, cut_limit 1) '
-        'x E3: default environment, then every single deviation (solver model: other phase / reversed variable order; solver time-out '
+        'x E3: default environment, then every single deviation (solver model: other phase / mixed phase; solver time-out '
         'on each solver call (fake pool); cut family: reversed per-node order, reversed leaf order, dominated cuts kept, trivial cut '
         'first, each admissible single-cut drop; iteration order of set(cut): descending / rotations), thorough: every pair of '
         'deviations on the designed shapes. Oracle: reference truth table, interface, non-trivial gate count; exceptions other than '
         'FailedValidationError tolerated only when two gates of the argument are functionally equivalent. distinct = distinct '
         '(gates before, gates after).',
-        'bounds': {'quick': '13 designed shapes (4 bases x 8 parameter sets, 1 deviation for XAIG with direct/pool/validation; the two largest shapes with max_subcircuit_size<=3); F(2,1,A04), F(2,2,A04) 1 deviation; F(3,2,A04S) default environment',
+        'bounds': {'quick': '18 designed shapes (4 bases x 8 parameter sets, 1 deviation for XAIG with direct/pool/validation; the two largest shapes with max_subcircuit_size<=3); F(2,1,A04), F(2,2,A04) 1 deviation; F(3,2,A04S) default environment',
                    'thorough': 'designed shapes 2 deviations; F(2,1) 2 deviations; F(2,2,A04), F(3,2,A04) 1 deviation; F(2,3,A04S) default environment + set-order deviations, F(3,3,A04S) default environment'}[tier],
         'exhaustive': True,
         'assumptions': ['vsat is sound and complete; the cut shim enumerates admissible families (vmc/shims); vmc.refmodel evaluator'],
